@@ -828,6 +828,9 @@ def build(p):
   v_aggregators(p)
   from . import C10
   C10.v_agg_keys(p)
+  # the bit count of a round is a function of this round's clients only: every accumulator an aggregator
+  # appends to (the per-client code lengths of the arithmetic mode) is created inside the call
+  C10.v_frames(p, files=[C10.AGG], min_sites=1)
   p.native('uniform_stochastic_quantize[float32]', D, 'quantizers',
            lambda m: dict(kind='usq', vec='huge', num_levels=4, seed=0, draws=2))
   p.native('uniform_stochastic_quantizer', D, 'aggregators')
